@@ -226,6 +226,14 @@ fn to_text(rng: &mut StdRng, toks: &[Tok], p_space: f64) -> String {
 
 pub fn gen_case(rng: &mut StdRng, n_operands: usize, n_vars: usize, shape: u8, p_un: f64, p_red: f64) -> (Vec<OpDesc>, String) {
     let tab = gen_table(rng);
+    let (toks, _) = gen_toks(rng, &tab, n_operands, n_vars, shape, p_un, p_red, false);
+    let p_space = *[0.0, 0.5, 1.0].choose(rng).unwrap();
+    let text = to_text(rng, &toks, p_space);
+    (tab, text)
+}
+
+fn gen_toks(rng: &mut StdRng, tab: &[OpDesc], n_operands: usize, n_vars: usize, shape: u8, p_un: f64, p_red: f64, plain_lits: bool) -> (Vec<Tok>, ()) {
+    let tab = tab.to_vec();
     let bins: Vec<usize> = tab.iter().enumerate().filter(|(_, o)| o.bin).map(|(i, _)| i).collect();
     let uns: Vec<usize> = tab.iter().enumerate().filter(|(_, o)| o.un).map(|(i, _)| i).collect();
     let consts: Vec<usize> = tab.iter().enumerate().filter(|(_, o)| o.constant).map(|(i, _)| i).collect();
@@ -237,9 +245,71 @@ pub fn gen_case(rng: &mut StdRng, n_operands: usize, n_vars: usize, shape: u8, p
     };
     let mut toks = Vec::new();
     render(rng, &tree, &tab, p_red, &mut toks);
-    let p_space = *[0.0, 0.5, 1.0].choose(rng).unwrap();
-    let text = to_text(rng, &toks, p_space);
-    (tab, text)
+    if plain_lits {
+        for t in toks.iter_mut() {
+            if let Tok::Word(w, 0) = t {
+                if w.starts_with('.') || w.ends_with('.') {
+                    *w = w.replace('.', "");
+                    if w.is_empty() {
+                        *w = "7".into();
+                    }
+                }
+            }
+        }
+    }
+    (toks, ())
+}
+
+/// a well-formed text over a (mirror of a) real table, damaged at one point in one of the ways of C07
+pub fn gen_damaged(rng: &mut StdRng, tab: &[OpDesc]) -> (String, &'static str) {
+    let n = rng.random_range(1..10);
+    let (mut toks, _) = gen_toks(rng, tab, n, 3, 0, 0.25, 0.15, true);
+    let bins: Vec<&str> = tab.iter().filter(|o| o.bin).map(|o| o.name).collect();
+    let kind = *["paren_deleted", "paren_inserted", "bin_appended", "extra_operand", "illegal_char", "none"].choose(rng).unwrap();
+    match kind {
+        "paren_deleted" => {
+            let ps: Vec<usize> = toks.iter().enumerate().filter(|(_, t)| matches!(t, Tok::Open | Tok::Close)).map(|(i, _)| i).collect();
+            if let Some(p) = ps.choose(rng) {
+                toks.remove(*p);
+            } else {
+                toks.push(Tok::Close);
+            }
+        }
+        "paren_inserted" => {
+            let p = rng.random_range(0..=toks.len());
+            toks.insert(p, if rng.random_bool(0.5) { Tok::Open } else { Tok::Close });
+        }
+        "bin_appended" => toks.push(Tok::Word(bins.choose(rng).unwrap().to_string(), 3)),
+        "extra_operand" => {
+            let os: Vec<usize> = toks.iter().enumerate().filter(|(_, t)| matches!(t, Tok::Word(_, 0 | 1 | 2))).map(|(i, _)| i).collect();
+            let p = os.choose(rng).map(|p| *p + if rng.random_bool(0.5) { 1 } else { 0 }).unwrap_or(toks.len());
+            toks.insert(p, Tok::Word(if rng.random_bool(0.5) { "9".into() } else { "zz".into() }, 0));
+        }
+        _ => {}
+    }
+    let mut text = to_text(rng, &toks, 1.0);
+    if kind == "illegal_char" {
+        // outside braces: a braced name may contain anything
+        let cs: Vec<char> = text.chars().collect();
+        let mut depth = 0;
+        let spots: Vec<usize> = (0..=cs.len())
+            .filter(|&i| {
+                if i > 0 {
+                    match cs[i - 1] {
+                        '{' => depth += 1,
+                        '}' => depth -= 1,
+                        _ => {}
+                    }
+                }
+                depth == 0
+            })
+            .collect();
+        let p = *spots.choose(rng).unwrap();
+        let mut cs = cs;
+        cs.insert(p, *['#', '$', '\\', '?', '\'', '"', ';', '§'].choose(rng).unwrap());
+        text = cs.into_iter().collect();
+    }
+    (text, kind)
 }
 
 /// nesting family: `u(u((... x ...)))` to the given depth, mixed parens and unary calls
@@ -392,6 +462,12 @@ pub fn main(args: &[String]) -> i32 {
     let mut out = std::io::BufWriter::new(stdout.lock());
     for i in 0..n {
         let (tab, text, tag) = match family.as_str() {
+            "dmg-float" | "dmg-val" => {
+                let t = real_table(if family == "dmg-float" { "float" } else { "val" });
+                // the value table's `.`/if/else and comparison chains are fine; its literals must be plain
+                let (s, kind) = gen_damaged(&mut rng, &t);
+                (t, s, kind.to_string())
+            }
             "lex-float" | "lex-val" | "lex-rnd" => {
                 let t = match family.as_str() {
                     "lex-float" => real_table("float"),
